@@ -313,7 +313,7 @@ func c03geom(r *h.Rand, kind int) orb.Geometry {
 	}
 }
 
-var c03keys = []string{"name", "kind", "n", "x", "class", "population", "ünï", "a", "", "tag:with:colon"}
+var c03keys = []string{"name", "Name", "NAME", "kind", "n", "N", "x", "class", "Class", "population", "ünï", "ÜNÏ", "a", "A", "", "tag:with:colon"}
 
 func c03value(r *h.Rand) interface{} {
 	n := []int64{0, 1, 7, -1, 255, 256, 1 << 31, -(1 << 31), 1<<53 + 1, 42}[r.Intn(10)]
@@ -371,8 +371,8 @@ func c03props(r *h.Rand) geojson.Properties {
 }
 
 func c03id(r *h.Rand) interface{} {
-	v := []uint64{0, 1, 7, 1 << 31, 1<<53 - 1, 123456789}[r.Intn(6)]
-	switch r.Intn(7) {
+	v := []uint64{0, 1, 7, 1 << 31, 1<<53 - 1, 123456789, 1 << 62, 1<<62 + 12345}[r.Intn(8)]
+	switch r.Intn(8) {
 	case 0, 1:
 		return nil
 	case 2:
@@ -383,8 +383,11 @@ func c03id(r *h.Rand) interface{} {
 		return uint64(v)
 	case 5:
 		return float64(v)
-	default:
+	case 6:
 		return uint32(v)
+	default:
+		// the top half of the unsigned 64 bit range
+		return []uint64{1 << 63, 1<<64 - 1, 1<<63 + 7}[r.Intn(3)]
 	}
 }
 
@@ -492,6 +495,10 @@ func c03roundTrip(c *h.Ctx, r *h.Rand, layers mvt.Layers, collection bool) {
 		fail(key, "mvt.Marshal failed on layers inside the domain", err.Error())
 		return
 	}
+	if c03held != nil && !bytes.Equal(c03held, c03heldCopy) {
+		fail("", "bytes returned by an earlier mvt.Marshal call were overwritten by a later call", nil)
+	}
+	c03held, c03heldCopy = data, append([]byte{}, data...)
 	// determinism: 8 marshals with property maps rebuilt in different insertion orders
 	for k := 0; k < 7; k++ {
 		d2, err := mvt.Marshal(rebuildProps(r, layers))
@@ -534,6 +541,8 @@ func c03roundTrip(c *h.Ctx, r *h.Rand, layers mvt.Layers, collection bool) {
 		}
 	}
 }
+
+var c03held, c03heldCopy []byte
 
 func hasEmptyCollectionFeature(layers mvt.Layers) bool {
 	for _, l := range layers {
@@ -586,6 +595,39 @@ func init() {
 					if len(layers[0].Features) < 3 {
 						c.Sample(c03describe(layers))
 					}
+				},
+			},
+			{
+				// large, highly repetitive layers (compress better than 100:1): thousands of identical features
+				Name: "large-repetitive-tiles", Count: h.Fixed(6, 200),
+				Run: func(c *h.Ctx, idx uint64, r *h.Rand) {
+					n := []int{1000, 3000, 20000, 500, 8000, 1500}[idx%6]
+					g := c03geom(r, []int{5, 2, 0, 6}[r.Intn(4)])
+					l := &mvt.Layer{Name: "big", Version: 2, Extent: 4096}
+					for i := 0; i < n; i++ {
+						f := geojson.NewFeature(orb.Clone(g))
+						f.Properties = geojson.Properties{"kind": "same", "n": 1}
+						l.Features = append(l.Features, f)
+					}
+					layers := mvt.Layers{l}
+					data, err := mvt.MarshalGzipped(layers)
+					if err != nil {
+						c.Fail("", "mvt.MarshalGzipped failed on a large layer", err.Error())
+						return
+					}
+					plain, _ := mvt.Marshal(layers)
+					got, err := mvt.UnmarshalGzipped(data)
+					c.Evals(2)
+					if err != nil {
+						c.Fail("", "mvt.UnmarshalGzipped failed on what MarshalGzipped produced (large repetitive layer)", map[string]interface{}{"features": n, "geometry": sv(g), "gzipped_bytes": len(data), "plain_bytes": len(plain), "err": err.Error()})
+						return
+					}
+					if diff := c03compare(got, c03model(layers, false)); diff != "" {
+						c.Fail("", "large repetitive layer differs after the gzipped round trip", map[string]interface{}{"features": n, "geometry": sv(g), "diff": diff})
+					}
+					c.Max("max_compression_ratio_of_a_round_tripped_tile", float64(len(plain))/float64(len(data)), func() string { return fmt.Sprintf("%d features", n) })
+					c.Nontrivial(h.Mix(0xb16, idx, uint64(n)))
+					c.Sample(map[string]interface{}{"features": n, "geometry": sv(g), "gzipped_bytes": len(data), "plain_bytes": len(plain)})
 				},
 			},
 			{
